@@ -173,7 +173,8 @@ static void do_setup(char *p) {
   if (!r1) r2 = hwloc_topology_load(mainT);
   if (bound) { unsetenv("HWLOC_THISSYSTEM"); if (haveold) sched_setaffinity(0, sizeof old, &old); }
   /* the documented discipline: a phase of modifications ends with hwloc_topology_refresh(); from then on no consulting call may write */
-  if (!r2) { annotate(mainT); hwloc_topology_refresh(mainT); }
+  /* (a binding-restricted load is consulted as load returned it: the restrict inside the load must leave nothing to refresh) */
+  if (!r2 && !bound) { annotate(mainT); hwloc_topology_refresh(mainT); }
   if (!r2 && dup) { hwloc_topology_t d = NULL; if (!hwloc_topology_dup(&d, mainT)) { hwloc_topology_destroy(mainT); mainT = d; } }
   }
   out("{\"e\":\"setup\",\"kind\":\"%s\",\"arg\":", kind ? kind : ""); out_jstr(p); out(",\"set\":%d,\"load\":%d}", r1, r2); out_end();
